@@ -21,6 +21,16 @@ for pid in sorted(md.CLAIMED):
         else:
             c["text"] = c["text"] + "  Also decided: " + text + "."
         c["technique"] = c["technique"] + "; " + tech
+    add5 = getattr(md, "ADDENDA_R5", {}).get(pid)
+    if add5:
+        ref, text, tech = add5
+        c["design_ref"] = c["design_ref"] + ", " + ref + " (sections 8, 9)"
+        if "  Not decided:" in c["text"]:
+            head, tail = c["text"].split("  Not decided:", 1)
+            c["text"] = head + "  Round 5: " + text + ".  Not decided:" + tail
+        else:
+            c["text"] = c["text"] + "  Round 5: " + text + "."
+        c["technique"] = c["technique"] + "; " + tech
     checks.append({
         "property_id": pid,
         "quick_cmd": "./check %s --tier quick" % pid,
